@@ -1038,6 +1038,11 @@ func (c *SpecCtx) evalCall(x *ast.CallExpr) *SV {
 		i := c.term(c.eval(x.Args[1]), ex.env.IntS())
 		bt := types.Typ[types.Uint8]
 		return &SV{V: scalar(Select(Select(ex.elemArr(c.st, bt, "", SBV8), ex.valTerm(a.V)), i)), T: bt}
+	case "bytesOfArr":
+		// bytesOfArr(arrayRef): the whole content of a byte storage array in the current state, as a seq[byte]
+		a := c.eval(x.Args[0])
+		bt := types.Typ[types.Uint8]
+		return &SV{V: scalar(Select(ex.elemArr(c.st, bt, "", SBV8), ex.valTerm(a.V))), T: seqType(bt, ex.env.typeKey(bt))}
 	case "anyType":
 		a := c.eval(x.Args[0])
 		f := ex.env.d.Func("any_type", SBool, SRef)
